@@ -233,7 +233,7 @@ def check_c14_cfg(v, tier, cfg):
 
 def check_c15(v, tier):
     import macrogen
-    cfg = "TreeMacro6" if tier == "quick" else "TreeMacro7"
+    cfg = "TreeMacro7" if tier == "quick" else "TreeMacro8"
     path, meta = ensure_bundles(cfg)
     cases = []
     import gzip
@@ -310,6 +310,7 @@ def check_c17(v, tier):
     # recorded histories (same seeds) must be byte-identical under every feature set, and are valid
     # behaviours of the specification (validated once, for the full-featured build)
     tspecs = ([{"mix": "churn200", "seed": SEED * 10 + k, "events": 200, "max_slots": 8} for k in range(2)]
+              + [{"mix": "boundary-plain", "seed": SEED * 100 + k, "events": 0} for k in range(2)]
               + [{"mix": "c17", "seed": SEED * 10 + 5 + k, "events": 600 if tier == "quick" else 4000, "segment": 300, "max_slots": 10} for k in range(2 if tier == "quick" else 6)])
     hashes = {}
     for fs_ in sets:
@@ -465,7 +466,7 @@ def setup():
     ensure_bundles("GenRecycled_k6")
     ensure_bundles("GenPrint_s4")
     ensure_bundles("GenPrintShapes_k6")
-    ensure_bundles("TreeMacro6")
+    ensure_bundles("TreeMacro7")
     for m in MC_QUICK:
         run_mc(m)
     print("setup ok")
